@@ -149,6 +149,10 @@ func setDiff(a, b map[uint16][]byte) string {
 	return ""
 }
 
+// bigMax is the largest value length genTripletSet produces: 65535 (the 16-bit
+// maximum) at container level, 65531 inside PDUs.
+var bigMax = 65535
+
 func genTripletSet(c *core.Chooser, distinct bool, big bool) []spec.Triplet {
 	n := c.Size(32, 0, 1, 2)
 	used := map[uint16]bool{}
@@ -169,9 +173,9 @@ func genTripletSet(c *core.Chooser, distinct bool, big bool) []spec.Triplet {
 		used[tag] = true
 		max := 12
 		if big && c.Prob(1, 6) {
-			max = 65531
+			max = bigMax
 		}
-		l := c.Size(max, 0, 1, 255, 256, 65531)
+		l := c.Size(max, 0, 1, 255, 256, 65531, 65534)
 		ts = append(ts, spec.Triplet{Tag: tag, Val: c.Blob(l, "any")})
 	}
 	return ts
@@ -290,7 +294,7 @@ func optRoundTrip(r *core.Run) {
 // (b) both parsers of a container agree on every well-formed triplet sequence.
 func optParserAgreement(r *core.Run) {
 	c := r.C
-	ts := genTripletSet(c, false, false)
+	ts := genTripletSet(c, false, c.Prob(1, 8))
 	// force duplicates now and then
 	if len(ts) >= 2 && c.Bool() {
 		ts[len(ts)-1].Tag = ts[c.Intn(len(ts)-1)].Tag
@@ -537,7 +541,9 @@ func optThroughPDU(r *core.Run) {
 	pd := sp.Proto(s[0]).PDU(s[1])
 	m := spec.Gen(c, pd, spec.GenOpt{MaxDests: 2, BinNoNul: true, NoTail: true})
 	tailField := pd.Fields[len(pd.Fields)-1]
+	bigMax = 65531
 	ts := genTripletSet(c, true, c.Prob(1, 4))
+	bigMax = 65535
 	m.V(tailField.Name).T = ts
 	site := pd.Site()
 	pdu := ToGo(m)
